@@ -1,13 +1,15 @@
 ------------------------------ MODULE C18Trace ------------------------------
 (* C18 - one real handshake (and message) per cell of the configuration matrix; the observed   *)
-(* outcome must agree with the policy of Transport.tla.                                         *)
+(* outcome must agree with the policy of Transport.tla.  Cells with srv >= 0 are attempts of   *)
+(* successive exporting processes against one long-lived endpoint (Attempt of Transport.tla).   *)
 EXTENDS Transport, TraceBase
 VARIABLES l, ncells
 ev == Log[l]
 IsEvent(e) == l <= Len(Log) /\ Log[l].e = e /\ l' = l + 1
-Init == l = 1 /\ ncells = 0
-TReset == IsEvent("Reset") /\ ncells' = 0
-TCell == IsEvent("Cell") /\ CellOK(ev.cell, ev.obs) /\ ncells' = ncells + 1
+Init == l = 1 /\ ncells = 0 /\ sess = << >>
+TReset == IsEvent("Reset") /\ ncells' = 0 /\ sess' = << >>
+TCell == /\ IsEvent("Cell") /\ CellOK(ev.cell, ev.obs) /\ ncells' = ncells + 1
+         /\ IF ev.srv >= 0 THEN Attempt(ev.srv, ev.cell, ev.obs.established) ELSE UNCHANGED sess
 Next == TReset \/ TCell
-Spec == Init /\ [][Next]_<<l, ncells>>
+Spec == Init /\ [][Next]_<<l, ncells, sess>>
 =============================================================================
